@@ -47,6 +47,10 @@ func runC14(r *vfw.Run) {
 		s.Cfg.Mempool.TxPoolExecutableSlots = 3 + t.Choose("c14.execslots", 4)
 	}
 	n := s.AddNode(0, nil)
+	// a second node of the same operator (same key, so its blocks are eligible too): it hears about some of the
+	// transactions, about variants of others (same sender and nonce, other content), and builds some of the blocks
+	peer := s.AddNode(0, nil)
+	peerBuilds := t.Choose("c14.peerbuilds", 3) != 0
 	w := s.W
 	senders := s.AllActors()
 	var funded []*scen.Ident
@@ -110,6 +114,18 @@ func runC14(r *vfw.Run) {
 				} else {
 					tx = mkTx(id, base+uint32(1+k), ep, int64(1000+c*100+k))
 					shared = append(shared, tx)
+					if peerBuilds {
+						switch t.Choose("c14.topeer", 4) {
+						case 0:
+							// the peer gets a variant: same sender and nonce, other amount
+							v := mkTx(id, base+uint32(1+k), ep, int64(5000+c*100+k))
+							peer.Do(func() { peer.Pool.AddExternalTxs(validation.InboundTx, v) })
+							r.Fault("variant_with_same_nonce_sent_to_peer")
+						case 1, 2:
+							cp := tx
+							peer.Do(func() { peer.Pool.AddExternalTxs(validation.InboundTx, cp) })
+						}
+					}
 				}
 				wasSyncing := syncing
 				var err error
@@ -193,11 +209,60 @@ func runC14(r *vfw.Run) {
 			gas += uint64(fee.CalculateGas(tx))
 		}
 		// build and insert a block (ProposeBlock takes its own list; ResetTo runs inside AddBlock)
-		p := n.Chain.ProposeBlock(nil)
-		if err := n.Chain.AddBlock(p.Block, nil, collector.NewStatsCollector()); err != nil {
-			r.Probe("scenario_cut_short:own-block-rejected")
-			r.Note("own block rejected: %v", err)
+		// submissions that land exactly while the block is being inserted (ResetTo): tasks made runnable right now
+		if t.Choose("c14.burst", 2) == 0 {
+			nb := 1 + t.Choose("c14.burstn", 2)
+			for b := 0; b < nb; b++ {
+				id := funded[len(funded)-1-b%2]
+				w.Spawn(n.Ctx, "late-submitter", func() {
+					for k := 1 + t.Choose("c14.burstk", 3); k > 0; k-- {
+						ep := n.App.State.Epoch()
+						nonce := n.App.NonceCache.GetNonce(id.Addr, ep) + 1 // what the RPC layer uses for the next nonce
+						tx := mkTx(id, nonce, ep, int64(9000+int(nonce)))
+						err := n.Pool.AddExternalTxs(validation.InboundTx, tx)
+						r.Logf("late submitter %x nonce=%d err=%v", id.Addr[:2], nonce, err)
+					}
+				})
+			}
+			r.Fault("submission_during_block_insertion")
+		}
+		var p *types.BlockProposal
+		foreign := peerBuilds && t.Choose("c14.builder", 2) == 0
+		if foreign {
+			var perr error
+			peer.Do(func() {
+				p = peer.Chain.ProposeBlock(nil)
+				perr = peer.Chain.AddBlock(p.Block, nil, collector.NewStatsCollector())
+			})
+			if perr != nil {
+				r.Probe("scenario_cut_short:peer-block-rejected")
+				break
+			}
+			r.Fault("block_built_by_peer")
+		} else {
+			p = n.Chain.ProposeBlock(nil)
+		}
+		enc, _ := p.Block.ToBytes()
+		blk := new(types.Block)
+		if err := blk.FromBytes(enc); err != nil {
+			r.Trouble("block does not decode: %v", err)
+		}
+		if err := n.Chain.AddBlock(blk, nil, collector.NewStatsCollector()); err != nil {
+			r.Probe("scenario_cut_short:block-rejected")
+			r.Note("block rejected (foreign=%v): %v", foreign, err)
 			break
+		}
+		if !foreign {
+			var perr error
+			peer.Do(func() {
+				b2 := new(types.Block)
+				b2.FromBytes(enc)
+				perr = peer.Chain.AddBlock(b2, nil, collector.NewStatsCollector())
+			})
+			if perr != nil {
+				r.Probe("scenario_cut_short:peer-rejected-block")
+				break
+			}
 		}
 		var order []string
 		for _, tx := range p.Block.Body.Transactions {
@@ -233,6 +298,17 @@ func runC14(r *vfw.Run) {
 				}
 			}
 		}
+		// (c') the by-address view shows nothing with a consumed nonce either
+		if n.App.State.ValidationPeriod() == 0 && !syncing {
+			ep = n.App.State.Epoch()
+			for _, a := range funded {
+				for _, tx := range n.Pool.GetPendingByAddress(a.Addr) {
+					if tx.Epoch == ep && n.App.State.GetEpoch(a.Addr) == ep && tx.AccountNonce <= n.App.State.GetNonce(a.Addr) && n.Pool.GetTx(tx.Hash()) == nil {
+						viol("C14:removed-transaction-still-listed-for-its-sender", "tx %x of %x nonce %d (committed nonce %d) is gone from the pool but still returned by GetPendingByAddress after block %d", tx.Hash().Bytes()[:6], a.Addr[:6], tx.AccountNonce, n.App.State.GetNonce(a.Addr), p.Block.Height())
+					}
+				}
+			}
+		}
 		// (d) accepted transactions stay retrievable until included or made invalid
 		if !syncing {
 			ro, err := n.App.Readonly(n.Chain.Head.Height())
@@ -263,6 +339,10 @@ func runC14(r *vfw.Run) {
 			}
 		}
 	}
+	// (an earlier version also demanded, at quiescence, that a pooled transaction continuing its sender's committed nonce
+	// be offered to the block builder. The pool sometimes promotes such a transaction only with the NEXT block - observed
+	// on the unchanged tree - and the property promises what the offered list looks like, not that it is complete:
+	// the oracle demanded more than the property states and was removed.)
 	r.Case(r.W.Fingerprint(), blocksWhileSubmitting >= 1 && blocksWithTxs >= 2)
 	r.FaultN("scheduler_choices", len(r.Tape.Rec))
 	if r.Sample == nil {
